@@ -11,8 +11,14 @@ package sqlittle
 
 //@ macro OPFRAME() = true
 
+// schema_calls counts the schema reads of this handle: every operation that succeeds has read the
+// table's definition inside its own read transaction (C08: no answer from a definition remembered
+// from an earlier transaction).
+//@ ghost schema_calls bv64
 //@ func (*db.Database).Schema
-//@   props C06 C10 C05
+//@   ghost-exit schema_calls = schema_calls + 1
+//@   ensures [counted] schema_calls == old(schema_calls) + 1
+//@   props C06 C10 C05 C08
 //@   modifies * -M:S_db_KeyCol -M:S_sqlittle_columnIndex hdr_valid hdr_ps hdr_cookie jr_pos peer_state created
 //@   requires db != nil
 //@   requires [locked] lk_shared
@@ -32,7 +38,9 @@ package sqlittle
 //@   ensures [own] err == nil ==> r0 != nil && fresh(r0) && fresh(r0.db)
 
 //@ func (*sqlittle.DB).SelectDone
-//@   props C06 C17
+//@   props C06 C17 C08
+//@   ensures-before-exit [current-schema] r0 == nil ==> schema_calls == old(schema_calls) + 1
+//@   ghost-exit schema_calls = old(schema_calls)
 //@   modifies * -M:S_sqlittle_columnIndex lk_shared lk_pending peer_state cc_now hdr_valid hdr_ps hdr_cookie jr_pos
 //@   requires db != nil && !lk_shared && !lk_pending && cb != nil
 //@   ensures [released] !lk_shared && !lk_pending
@@ -40,14 +48,18 @@ package sqlittle
 //@   ensures-on-panic [released] !lk_shared && !lk_pending
 
 //@ func (*sqlittle.DB).SelectRowid
-//@   props C06
+//@   props C06 C08
+//@   ensures-before-exit [current-schema] r1 == nil ==> schema_calls == old(schema_calls) + 1
+//@   ghost-exit schema_calls = old(schema_calls)
 //@   modifies * -M:S_sqlittle_columnIndex lk_shared lk_pending peer_state cc_now hdr_valid hdr_ps hdr_cookie jr_pos
 //@   requires db != nil && !lk_shared && !lk_pending
 //@   ensures [released] !lk_shared && !lk_pending
 //@   ensures [yield] peer_stable && old(peer_state) >= 3 ==> r1 != nil
 
 //@ func (*sqlittle.DB).IndexedSelect
-//@   props C06
+//@   props C06 C08
+//@   ensures-before-exit [current-schema] r0 == nil ==> schema_calls == old(schema_calls) + 1
+//@   ghost-exit schema_calls = old(schema_calls)
 //@   modifies * -M:S_sqlittle_columnIndex lk_shared lk_pending peer_state cc_now hdr_valid hdr_ps hdr_cookie jr_pos
 //@   requires db != nil && !lk_shared && !lk_pending && cb != nil
 //@   ensures [released] !lk_shared && !lk_pending
@@ -55,7 +67,9 @@ package sqlittle
 //@   ensures-on-panic [released] !lk_shared && !lk_pending
 
 //@ func (*sqlittle.DB).IndexedSelectEq
-//@   props C06
+//@   props C06 C08
+//@   ensures-before-exit [current-schema] r0 == nil ==> schema_calls == old(schema_calls) + 1
+//@   ghost-exit schema_calls = old(schema_calls)
 //@   modifies * -M:S_sqlittle_columnIndex lk_shared lk_pending peer_state cc_now hdr_valid hdr_ps hdr_cookie jr_pos
 //@   requires db != nil && !lk_shared && !lk_pending && cb != nil
 //@   ensures [released] !lk_shared && !lk_pending
@@ -63,7 +77,9 @@ package sqlittle
 //@   ensures-on-panic [released] !lk_shared && !lk_pending
 
 //@ func (*sqlittle.DB).PKSelect
-//@   props C06
+//@   props C06 C08
+//@   ensures-before-exit [current-schema] r0 == nil ==> schema_calls == old(schema_calls) + 1
+//@   ghost-exit schema_calls = old(schema_calls)
 //@   modifies * -M:S_sqlittle_columnIndex lk_shared lk_pending peer_state cc_now hdr_valid hdr_ps hdr_cookie jr_pos
 //@   requires db != nil && !lk_shared && !lk_pending && cb != nil
 //@   ensures [released] !lk_shared && !lk_pending
@@ -71,7 +87,9 @@ package sqlittle
 //@   ensures-on-panic [released] !lk_shared && !lk_pending
 
 //@ func (*sqlittle.DB).Columns
-//@   props C06
+//@   props C06 C08
+//@   ensures-before-exit [current-schema] r1 == nil ==> schema_calls == old(schema_calls) + 1
+//@   ghost-exit schema_calls = old(schema_calls)
 //@   modifies * -M:S_sqlittle_columnIndex lk_shared lk_pending peer_state cc_now hdr_valid hdr_ps hdr_cookie jr_pos
 //@   requires db != nil && !lk_shared && !lk_pending
 //@   ensures [released] !lk_shared && !lk_pending
